@@ -11,6 +11,10 @@ Oracle (the sentences of C03 on observables; nothing of the implementation is co
     answer to ITS request: the token it holds belongs to a request with the call's own content and message-id, no token is held
     by two calls, and - in the total order of one log shared by server and callers - the k-th completion of calls with a
     given content is preceded by k answers to requests with that content (no call returns before the server answered it);
+  * a request that timed out (an RPC object with a short time limit, or an operation made through a Manager whose `timeout`
+    is short, the script holding the answer back for longer) and whose answer arrives afterwards - while requests of the same
+    or of other threads are outstanding, sync or async, inside a lock context - disturbs nothing: the others complete with their
+    own answers, the session stays connected, the probe request afterwards gets its own answer;
   * a call that raises something else left nothing on the wire (a local refusal), or is a time-out whose answer was indeed
     held back longer than the time limit; every request on the wire belongs to exactly one call;
   * the session survives: still connected, a fresh request afterwards gets its own answer (unless the history closed it).
@@ -118,6 +122,9 @@ class Server(threading.Thread):
                 with self.cond:
                     n = len(self.wire)
                     hold, kind = self.policy[n % len(self.policy)] if sig[0] != 'close-session' and sig[1] != 'final' else (0, 'ok')
+                    late = re.fullmatch(r'c\d+(L+)', sig[1] or '')
+                    if late:                   # the script says of THIS request: answered later than the short time limit (L) / much later (LL)
+                        hold = LATE * len(late.group(1))
                     self.wire.append(dict(mid=mid, sig=sig, hold=hold, kind=kind))
                     self.log.add('seen', n)
                     self.cond.notify_all()
@@ -192,6 +199,15 @@ def _run(case):
     ses.connect(a)
     mgrs = [manager.Manager(ses, dh, timeout=LONG) for _ in range(max(1, case.get('nmgr', 1)))]
     lcs, rpcs, olock = {}, {}, threading.Lock()
+    smgrs = {}
+    def short_mgr(i):
+        """the Manager whose calls have the short time limit (the limit is an attribute of a Manager, read when it builds the
+        operation object: a Manager of its own on the same session, limit set through the `timeout` property)"""
+        with olock:
+            if i not in smgrs:
+                smgrs[i] = manager.Manager(ses, dh, timeout=LONG)
+                smgrs[i].timeout = SHORT
+            return smgrs[i]
     calls = []                                # dict(id, sig, how, out, tok, mid, exc)
     def new_call(sig, how, use=('op',)):
         with olock:
@@ -234,14 +250,18 @@ def _run(case):
     def steps(prog, pending, tid):
         for si, st in enumerate(prog):
             k = st[0]
-            if k == 'call':                       # ['call', mgr, op, async]: an operation through a Manager
-                m = mgrs[st[1] % len(mgrs)]
+            if k == 'call':                       # ['call', mgr, op, async(, short, late)]: an operation through a Manager; short: the
+                                                  # Manager's time limit is SHORT; late: the server answers this request after LATE x late
+                short = bool(st[4]) if len(st) > 4 else False
+                late = int(st[5]) if len(st) > 5 else 0
+                m = short_mgr(st[1] % len(mgrs)) if short else mgrs[st[1] % len(mgrs)]
                 marker = 'c%d' % len(calls) if st[2] in ('get', 'get_config', 'dispatch') else TARGETS[int(st[2].split(':')[1]) % 3]
                 opname = st[2].split(':')[0]
                 sig = ({'get': 'get', 'get_config': 'get-config', 'dispatch': 'probe', 'lock': 'lock', 'unlock': 'unlock'}[opname], marker)
                 c = new_call(sig, 'async' if st[3] else 'sync')
                 if sig[0] in ('get', 'get-config', 'probe'):
-                    c['sig'] = sig = (sig[0], 'c%d' % c['id'])
+                    c['sig'] = sig = (sig[0], 'c%d%s' % (c['id'], 'L' * late))
+                c['short'] = short
                 def invoke():
                     if opname == 'get': return m.get(filter=flt(sig[1]))
                     if opname == 'get_config': return m.get_config(source='running', filter=flt(sig[1]))
@@ -483,7 +503,46 @@ def core_cases():
         mk([[['call', 0, 'lock:0', 0], ['call', 0, 'unlock:0', 0], ['call', 0, 'lock:0', 0], ['call', 0, 'unlock:0', 0]]], policy=[H, H, N, N], base11=True),
         # a Manager used for two with-blocks
         mk([[['mwith', 0, [['call', 0, 'get', 0]]], ['mwith', 0, [['call', 0, 'get', 0]]]]], policy=[N]),
+    ] + timeout_core_cases()
+
+# requests made THROUGH A MANAGER that time out (the Manager's time limit is short, the script holds the answer back longer) and
+# whose answer arrives later, while the session is in use: S = such a request, W(n) = a request with the long limit whose answer
+# is held n x LATE (it is outstanding when the late answer to S arrives)
+def S(op='get', mgr=0): return ['call', mgr, op, 0, 1, 1]
+def W(n, op='get_config', mgr=0, asy=0): return ['call', mgr, op, asy, 0, n]
+def timeout_core_cases():
+    return [
+        mk([[S()]]),                                                         # alone: the late answer, then the probe
+        mk([[S(), W(2), ['call', 0, 'get', 0]]], policy=[N, H]),              # the late answer arrives while the NEXT request is outstanding
+        mk([[W(2)], [S()]]),                                                  # ... while another thread's request is outstanding
+        mk([[W(2), ['call', 0, 'get', 0]], [S(), S('get_config')], [W(2, 'dispatch', asy=1), W(1, 'get', asy=1)]], policy=[N, H]),
+        mk([[['with', 0, 0, [S('get_config'), ['call', 0, 'get', 0]]]], [['with', 0, 1, [W(2, 'get')]]]], policy=[H]),
+        mk([[S('dispatch', 1), S('get', 0)], [W(2, mgr=1), W(1, mgr=0)], [['req', 0, 1, 0], ['call', 1, 'lock:2', 0]]], policy=[E, N, H], nmgr=2, base11=True),
     ]
+
+def gen_timeout_case(rng):
+    """random histories around Manager-level requests that time out: per thread 1-3 steps of S (sync, any retrieval operation,
+    any Manager), W (sync / async, answer held 1 or 2 x LATE), ordinary operations, a lock context around some of them, a pause"""
+    nmgr = rng.choice([1, 1, 2])
+    ops = ['get', 'get', 'get_config', 'dispatch']
+    def step(depth):
+        r = rng.random()
+        if r < 0.4:
+            return S(rng.choice(ops), rng.randrange(nmgr))
+        if r < 0.65:
+            return W(rng.choice([1, 2, 2]), rng.choice(ops), rng.randrange(nmgr), int(rng.random() < 0.35))
+        if r < 0.8:
+            return ['call', rng.randrange(nmgr), rng.choice(ops + ['lock:0', 'unlock:0', 'lock:2']), int(rng.random() < 0.35)]
+        if r < 0.92 and depth == 0:
+            return ['with', rng.randrange(nmgr), rng.randrange(2), [step(1) for _ in range(rng.choice([1, 2]))]]
+        return ['sleep'] if r >= 0.92 else ['req', rng.randrange(2), int(rng.random() < 0.4), 0]
+    threads = [[step(0) for _ in range(rng.choice([1, 2, 2, 3]))] for _ in range(rng.choice([1, 2, 2, 3]))]
+    def has(prog):
+        return any((st[0] == 'call' and len(st) > 4 and st[4]) or (st[0] == 'with' and has(st[3])) for st in prog)
+    if not any(has(p) for p in threads):
+        i = rng.randrange(len(threads)); threads[i].insert(rng.randrange(len(threads[i]) + 1), S(rng.choice(ops), rng.randrange(nmgr)))
+    policy = [[rng.choice([0, 1, 1]), rng.choice(['ok', 'ok', 'ok', 'err'])] for _ in range(rng.choice([1, 2, 3, 5]))]
+    return mk(threads, policy=policy, profile=rng.choice(PROFILES), base11=rng.random() < 0.4, nmgr=nmgr)
 
 def gen_prog(rng, depth, nmgr, nobj, budget):
     prog = []
